@@ -183,9 +183,26 @@ def tlc(module, cfg=None, workers=1, env=None, timeout=1800, simulate=None, dept
     r.wall = time.time() - t0
     r.replay_path = out_path
     tail = []
+    def joined_lines(f):
+        """TLC's pretty-printer may wrap a printed tuple over several lines: re-join them."""
+        buf = None
+        for raw in f:
+            line = raw.rstrip("\n")
+            if buf is not None:
+                buf += " " + line.strip()
+                if buf.count("<<") <= buf.count(">>"):
+                    yield buf
+                    buf = None
+                continue
+            if line.startswith("<< ") and line.count("<<") > line.count(">>"):
+                buf = "<<" + line[3:]
+                continue
+            yield line
+        if buf is not None:
+            yield buf
+
     with open(out_path, errors="replace") as f:
-        for line in f:
-            line = line.rstrip("\n")
+        for line in joined_lines(f):
             if line.startswith('<<"REPLAY"'):
                 continue
             tail.append(line)
